@@ -27,6 +27,7 @@ TOL_DB = 1e-7      # predicates: absolute tolerance on dB values
 
 
 _NC = [0]
+_NS = [0]
 
 
 def natlit(n):
@@ -451,17 +452,17 @@ def make_snr(rng, tier):
     shape = [int(v) for v in rng.integers(1, 5, nd - 1)] + [int(rng.integers(8, 40))]
     X = rng.normal(size=shape) * 10.0 ** rng.uniform(-6, 6)
     N = rng.normal(size=shape) * 10.0 ** rng.uniform(-6, 6)
-    _NC[0] += 1
+    _NS[0] += 1
     pcm = None
-    if _NC[0] % 5 == 0:
+    if _NS[0] % 4 == 0:
         # real signals as they come from a wav file: integer PCM samples (int16 / int32), long enough to matter
         shape = shape[:-1] + [int(rng.choice([2048, 4096]))]
-        pcm = [np.int16, np.int32][(_NC[0] // 5) % 2]
+        pcm = [np.int16, np.int32][(_NS[0] // 4) % 2]
         X = rng.integers(-3000, 3001, size=shape).astype(pcm)
         N = rng.integers(-300, 301, size=shape).astype(pcm)
-    elif _NC[0] % 5 == 1 and nd >= 2:
+    elif _NS[0] % 4 == 2:
         # target and noise need not have the same number of samples / channels when no axis is given (whole-array powers)
-        N = rng.normal(size=[1] + shape[1:-1] + [int(rng.integers(8, 40))]) * 10.0 ** rng.uniform(-6, 6)
+        N = rng.normal(size=([1] + shape[1:-1] if nd >= 2 else []) + [int(rng.integers(8, 40))]) * 10.0 ** rng.uniform(-6, 6)
     rp = {'fn': 'snr', 'X': X, 'N': N, 'snr': float(rng.uniform(-30, 30)) if rng.random() < 0.8 else float(rng.integers(-3, 4) * 10),
           'inplace': bool(rng.random() < 0.5) and pcm is None,
           'rowwise': bool(nd >= 2 and rng.random() < 0.3) and N.shape == X.shape}
